@@ -4,6 +4,6 @@ import os, sys, json
 sys.path[:0] = ['/verif', '/repo/src']
 from vf.replay import replay
 ARGS = json.loads('{"m1": "", "m2": "", "frag": 7}')
-r = replay('harness.c04', 'run_exception[StrCodedError,v0,len0+0]', ARGS)
+r = replay('harness.c04', 'run_exception[StrCodedError,v0,len0+0]', ARGS, 'quick')
 print('REPRODUCED: ' + r if r else 'NOT-REPRODUCED')
 sys.exit(1 if r else 0)
